@@ -35,8 +35,8 @@ theorem non_mirror_commands :
        "LockingAndxRequest", "NegotiateRequest", "NegotiateResponse", "OpenAndxRequest",
        "OpenAndxResponse", "QueryInformationResponse", "ReadRawRequest", "ReadResponse",
        "RenameRequest", "SessionSetupAndxRequest", "SessionSetupAndxResponse",
-       "TransactionRequest", "TreeConnectRequest", "WriteAndCloseRequest", "WriteAndUnlockRequest",
-       "WriteAndxRequest", "WriteMpxRequest", "WriteRawRequest", "WriteRequest"] := by decide +kernel
+       "TransactionRequest", "WriteAndCloseRequest", "WriteAndUnlockRequest", "WriteAndxRequest",
+       "WriteMpxRequest", "WriteRawRequest", "WriteRequest"] := by decide +kernel
 
 /-- **every AndX command consumes its AndX block**: each of the 16 structures whose `IsAndX` returns
     true has the stanza (early returns on an empty parameter stream only, `AndX.Unmarshal` of the
@@ -52,9 +52,8 @@ theorem known_roundtrip_findings :
     commands.filterMap (fun c => (knownRtKind c).map (fun k => (k, c.name))) =
       [(.fixedEntrySize, "FindResponse"), (.fixedEntrySize, "FindUniqueResponse"),
        (.fieldNotMarshalled, "NegotiateRequest"), (.fieldNotMarshalled, "NegotiateResponse"),
-       (.conditionalField, "ReadRawRequest"), (.readsWholeBuffer, "TreeConnectRequest"),
-       (.conditionalField, "WriteAndCloseRequest"), (.conditionalField, "WriteAndxRequest"),
-       (.conditionalField, "WriteRawRequest")] := by decide +kernel
+       (.conditionalField, "ReadRawRequest"), (.conditionalField, "WriteAndCloseRequest"),
+       (.conditionalField, "WriteAndxRequest"), (.conditionalField, "WriteRawRequest")] := by decide +kernel
 
 /-- **every buffer is sized by the field documented to size it**: the (command, buffer, length) and
     (command, list, count) relations the regenerated unmarshal programs rely on are exactly the pinned
@@ -227,7 +226,7 @@ theorem non_mirror_loops_commands :
     (commands.filter (fun c => !MirrorLoops c)).map (·.name) =
       ["FindCloseResponse", "FindResponse", "FindUniqueResponse", "LockAndReadResponse",
        "NegotiateRequest", "NegotiateResponse", "ReadRawRequest", "ReadResponse", "RenameRequest",
-       "TreeConnectRequest", "WriteAndCloseRequest", "WriteAndUnlockRequest", "WriteRequest"] := by decide +kernel
+       "WriteAndCloseRequest", "WriteAndUnlockRequest", "WriteRequest"] := by decide +kernel
 
 /-- **C04, generic round trip over the loop fragment.**  As `mirror_roundtrip`, for every command whose
     regenerated programs satisfy `MirrorLoops`: the only statements outside the straight-line fragment are
